@@ -257,6 +257,7 @@ def run(ctx):
     rep.floor('Q8', 3)
     rep.floor('Q10', 6)
     rep.floor('Q11', 6)
+    rep.floor('Q12', 5)
 
 
 # ---------------------------------------------------------------- slist
@@ -550,6 +551,7 @@ def queue(ctx):
     q8(ctx, fns, m)
     q10(ctx, fns, lookup_in([m, ctx.module('hdr_unit')]))
     q11(ctx, fns, m, lookup_in([m, ctx.module('hdr_unit')]))
+    q12(ctx, lookup_in([m, ctx.module('hdr_unit')]))
     import sortguard
     for n_, lim, what in (('a_que_push_sort', 1, 'after the count was incremented one element is already enqueued and must be compared'),
                           ('a_que_sort_fore', 1, 'two elements may be out of order'), ('a_que_sort_back', 1, 'two elements may be out of order')):
@@ -1368,3 +1370,71 @@ def q11(ctx, fns, m, lk):
         (rep.bad if probs else rep.ok)('Q11', name + '[any length]', '; '.join(probs[:2])[:700] or '%d outcomes: at an arbitrary position of a ring with unexamined segments the iteration compares the documented operands once, '
                                        'stops on <= 0, otherwise moves one node on; the element is re-linked directly at the stop position (or at the far end when the scan is exhausted) and nothing else is read or written' % n,
                                        **({'key': '%s: scan step' % name, 'loc': fn.loc(header.term)} if probs else {'sample': {'fn': name, 'outcomes': n}}))
+
+
+# ---------------------------------------------------------------- Q12: the inline accessors of the queue
+def q12(ctx, lk):
+    """a_que_fore / a_que_back hand out the payload of the first / last node (null for an empty queue), the unchecked forms the same
+    without the test; a_que_swap_ exchanges the ring positions of the two nodes whose payloads it is given and nothing else."""
+    rep = ctx.rep
+    hdr = ctx.module('hdr_unit')
+    SZ = 16
+    rings = [[], ['A1'], ['A1', 'A2'], ['A1', 'SA', 'A2']]
+    table = {
+        'a_que_fore': lambda r: Ptr(r[0], SZ) if r else NULL,
+        'a_que_back': lambda r: Ptr(r[-1], SZ) if r else NULL,
+        'a_que_fore_': lambda r: Ptr(r[0], SZ) if r else None,
+        'a_que_back_': lambda r: Ptr(r[-1], SZ) if r else None,
+    }
+    for name, want in table.items():
+        fn = hdr.functions.get(name)
+        if fn is None or fn.error:
+            rep.unk('Q12', name, 'anchor vanished')
+            continue
+        ctx.rep.functions.add(name)
+        probs, n = [], 0
+        for r in rings:
+            w = want(r)
+            if w is None:
+                continue          # unchecked accessor on an empty queue: outside its contract
+            try:
+                h = Heap()
+                names = ['ctx'] + r
+                h.ring(names)
+                dom = QDom()
+                lv = symx.Interp(dom, lk).run(fn, [Ptr('ctx', 0)], h.state())
+                for lf in lv:
+                    n += 1
+                    if not (isinstance(lf.ret, Ptr) and lf.ret == w):
+                        probs.append('ring %s: returns %s, expected %s' % (r, lf.ret, w))
+                    if check_ring(lf, h, 'ctx', names, orig_of([names])):
+                        probs.append('ring %s: the accessor changes the ring' % r)
+                    if shape.touched_summary(lf, h):
+                        probs.append('ring %s: reads inside the queue' % r)
+            except Unsupported as e:
+                probs.append('ring %s: outside the domain: %s' % (r, e))
+        (rep.bad if probs else rep.ok)('Q12', name, '; '.join(sorted(set(probs))[:2]) or '%d cases: payload of the %s node, null when empty' % (n, 'first' if 'fore' in name else 'last'),
+                                       **({'key': '%s: accessor' % name, 'loc': fn.loc(fn.entry.instrs[0])} if probs else {}))
+    fn = hdr.functions.get('a_que_swap_')
+    if fn is None or fn.error:
+        rep.unk('Q12', 'a_que_swap_', 'anchor vanished')
+        return
+    ctx.rep.functions.add('a_que_swap_')
+    probs, n = [], 0
+    for r, a, b in ((['L', 'A', 'M', 'B', 'R'], 'A', 'B'), (['SL', 'L', 'A', 'M', 'SM', 'N', 'B', 'R', 'SR'], 'A', 'B'), (['L', 'A', 'M', 'B', 'R'], 'B', 'A')):
+        try:
+            h = Heap()
+            names = ['ctx'] + r
+            h.ring(names)
+            lv = symx.Interp(QDom(), lk).run(fn, [Ptr(a, SZ), Ptr(b, SZ)], h.state())
+            want = [b if x == a else a if x == b else x for x in names]
+            for lf in lv:
+                n += 1
+                pr = check_ring(lf, h, 'ctx', want, orig_of([names]))
+                if shape.touched_summary(lf, h):
+                    pr.append('reads inside the unexamined part of the ring')
+                probs += ['ring %s swapping %s, %s: %s' % (r, a, b, x) for x in pr]
+        except Unsupported as e:
+            probs.append('ring %s: outside the domain: %s' % (r, e))
+    (rep.bad if probs else rep.ok)('Q12', 'a_que_swap_', '; '.join(probs[:2]) or '%d cases: the two nodes exchange their ring positions, the rest of the ring is untouched' % n,
+                                   **({'key': 'a_que_swap_: element swap', 'loc': fn.loc(fn.entry.instrs[0])} if probs else {}))
